@@ -135,5 +135,11 @@ func (b *batch) Commit(ctx context.Context) error {
 		}
 	}
 
-	return b.txn.Commit()
+	err := b.txn.Commit()
+	if err == badger.ErrConflict {
+		// a key read by this batch was committed by another transaction since the batch began:
+		// the conditions were checked against a snapshot that is no longer current
+		return storage.ErrCASFailed
+	}
+	return err
 }
